@@ -323,7 +323,7 @@ function __srcTrip(re,subs){ var t,re2; try{ t=String(re); re2=eval(t); }catch(e
     if((a===null)!==(b===null)||(a!==null&&(a.index!==b.index||a.length!==b.length||a.join("\u0000")!==b.join("\u0000")))) return "src:"+t+" behaves differently on subject "+i; }
   re.lastIndex=0; return "src:ok"; }
 var __fnlog=[];
-function __fn(){ __fnlog.push("C"+arguments.length); for(var i=0;i<arguments.length;i++) __pushV(__fnlog,arguments[i]); return "<"+__fnlog.length+">"; }
+function __fn(){ __fnlog.push("C"+arguments.length); for(var i=0;i<arguments.length;i++) __pushV(__fnlog,arguments[i]); return "<"+__fnlog.length+">$&$1$$$\x60$'$01"; }
 `
 
 var vm *otto.Otto
